@@ -98,6 +98,14 @@ func genSpec(r *Rand, wallets []string) specInfo {
 		wp = wallets[0] + "|" + wallets[1]
 	case k < 6:
 		wp = w + "|zz"
+	case k < 8 && len(wallets) > 1:
+		wp = groupedWalletPart(r, wallets[0], wallets[1])
+	case k < 10:
+		if r.Bool() {
+			wp = groupedWalletPart(r, w, "zz")
+		} else {
+			wp = groupedWalletPart(r, "zz", w)
+		}
 	}
 	wp = anchor(r, wp, 12)
 	var part accountPart
@@ -109,9 +117,9 @@ func genSpec(r *Rand, wallets []string) specInfo {
 			info.spec = wp + "/"
 		}
 		return info
-	case k < 22:
-		part = pick(r, alternationParts)
-	case k < 26:
+	case k < 28:
+		part = genAlternationPart(r)
+	case k < 32:
 		part = accountPart{pick(r, invalidParts), []string{"a", "ab"}}
 	default:
 		part = pick(r, accountParts)
